@@ -227,7 +227,7 @@ def run_property(pid, tier='quick', seed=0, only=None):
             else:
                 known_lines.append(f'NOTE: known finding {kid} no longer reproduces ({rec["cid"]}/{k["obligation"]}); consider marking it fixed')
     for cr in closed_results:
-        cnt = int(cr.get('count', 1))
+        cnt = 0 if cr.get('bounded') else int(cr.get('count', 1))      # bounded stand-ins are never counted as discharged
         n_ob += cnt
         v = cr['verdict']
         if v == 'unsat':
